@@ -27,6 +27,8 @@ func C19(c *Ctx) {
 	if run == nil {
 		return
 	}
+	c.R.Rule("C19-R6", "E3", "one buffered reader of the subprocess's output per session", 1)
+	c19Reader(c, run)
 	// the function that matches output lines
 	var F *ssa.Function
 	var matchCall *ssa.Call
@@ -522,6 +524,8 @@ func C09(c *Ctx) {
 	c.R.Rule("C09-R5", "E5", "emitted messages are canonicalised (they can be routed in memory to other machines and bound there)", 1)
 	c.R.Rule("C09-R3", "E6", "State serialises both fields unconditionally", 2)
 	c.R.Rule("C09-R4", "E5", "a bindings map never contains itself", 2)
+	c.R.Rule("C09-R6", "E6", "state readers decode numbers the way the matcher knows them (float64)", 1)
+	c09Readers(c)
 	step := c.fn("core", "Spec", "Step")
 	walk := c.fn("core", "Spec", "Walk")
 	exec := c.fn("interpreters/ecmascript", "Interpreter", "Exec")
@@ -598,7 +602,14 @@ func C09(c *Ctx) {
 					c.R.Discharge("C09-R1", key, c.pos(in), "an interface value handed in by the caller or an action")
 				} else {
 					ok, ts := jsonShaped(mi.X.Type())
-					c.R.Check(ok, "C09-R1", key, c.pos(in), "boxed from "+ts, "the engine stores a "+ts+" into the bindings: its JSON round trip has another Go type, so patterns match it differently before and after the state is persisted")
+					why := "the engine stores a " + ts + " into the bindings: its JSON round trip has another Go type, so patterns match it differently before and after the state is persisted"
+					if ok {
+						// a text cut at a byte offset can end inside a multi-byte character: JSON writes U+FFFD for it
+						if at := byteSliced(mi.X, engineFns, 0); at != nil {
+							ok, why = false, "the engine stores a string cut at a byte offset ("+c.posv(at)+"): a multi-byte character on the boundary leaves invalid UTF-8 in the state, which is written as U+FFFD and read back as a different string"
+						}
+					}
+					c.R.Check(ok, "C09-R1", key, c.pos(in), "boxed from "+ts, why)
 				}
 				// R4
 				n4++
@@ -778,4 +789,58 @@ func guardFiltered(w *sliceWeb, v ssa.Value, exe ssa.Value) bool {
 	_ = w
 	_ = exe
 	return ok(v)
+}
+
+// byteSliced: the string v is (or is concatenated from) a substring taken by byte offsets; returns that slice.
+func byteSliced(v ssa.Value, scope []*ssa.Function, depth int) ssa.Value {
+	if depth > 4 {
+		return nil
+	}
+	for _, d := range deepDefs(v, scope) {
+		switch x := d.(type) {
+		case *ssa.Slice:
+			if b, ok := x.X.Type().Underlying().(*types.Basic); ok && b.Info()&types.IsString != 0 {
+				return x
+			}
+		case *ssa.BinOp:
+			if x.Op == token.ADD {
+				if r := byteSliced(x.X, scope, depth+1); r != nil {
+					return r
+				}
+				if r := byteSliced(x.Y, scope, depth+1); r != nil {
+					return r
+				}
+			}
+		}
+	}
+	return nil
+}
+
+// c09Readers: C09-R6.  No reader of states, specs or messages in the engine and host packages switches the JSON
+// decoder to json.Number: the matcher knows numbers as float64 only, so a state read back that way behaves
+// differently from the state that was written.
+func c09Readers(c *Ctx) {
+	n, dec := 0, 0
+	for _, f := range c.P.FuncsIn("core", "crew", "match", "sio", "cmd/mcrew", "cmd/msimple", "cmd/sheensio", "cmd/mdb", "tools", "tools/expect", "interpreters/ecmascript") {
+		ssau.Instrs(f, func(in ssa.Instruction) {
+			ci, ok := in.(ssa.CallInstruction)
+			if !ok {
+				return
+			}
+			switch ssau.CalleeName(ci) {
+			case "encoding/json.Unmarshal", "encoding/json.NewDecoder", "(*encoding/json.Decoder).Decode":
+				dec++
+			case "(*encoding/json.Decoder).UseNumber":
+				n++
+				c.R.Violate("C09-R6", fmt.Sprintf("%s: decoder switched to json.Number #%d", fname(f), n), c.pos(in), "numbers are decoded as json.Number: bindings read back hold a type the matcher does not know (\"unknown pattern type\", or unequal to the float64 a live machine holds)")
+			}
+		})
+	}
+	if dec == 0 {
+		c.R.Break("C09-R6: no JSON decoding found in the engine and host packages")
+		return
+	}
+	if n == 0 {
+		c.R.Discharge("C09-R6", "no reader decodes numbers as json.Number", "", fmt.Sprintf("%d JSON decoding sites, none uses Decoder.UseNumber", dec))
+	}
 }
